@@ -463,6 +463,7 @@ def label_new(cx, doc):
         if isinstance(v, (list, dict)):
             if id(v) not in cx.table:
                 cx.table[id(v)] = cx.next_label
+                cx.table.setdefault('__alive__', []).append(v)
                 cx.next_label += 1
             for x in (v.values() if isinstance(v, dict) else v):
                 go(x)
